@@ -600,4 +600,25 @@ def targeted_cases(rng, n):
     r15 = random.Random(15); c = gen.cab_single(r15, nfolders=1, methods=[("none",)]); c2 = gen.cab_single(r15, nfolders=1, methods=[("none",)])
     sc = scenario.Scn().file("in0.cab", b"stub " * 7 + c.files["in0.cab"] + b"between" + c2.files["in0.cab"]).op("cab_new").op("cab_search", "c0", "in0.cab").op("cab_extract_all", "c0", "out", 4).op("cab_close", "c0")
     out.append(Case("gen:cab-search-faults", "cab", sc, True, None, all_faults=True))
+    # (16) directory names that are not valid UTF-8 (single-byte code pages), every listed name looked up
+    for i in range(max(1, n // 4)):
+        bad = [b"/\xfcbersicht.html", b"/caf\xe9", b"/caf\xe9.txt", b"/k\x80", b"/m\xff\xfe", b"/a\xc3", b"/d\xe2\x82", b"/b\xf0\x9f\x98", b"/n\xc0\xaf1", b"/z\xf8x"]
+        f0 = [(nm, b"d%d" % k) for k, nm in enumerate(bad)] + [(b"/plain%02d" % k, b"") for k in range(6)]
+        chm, exp = chmfmt.build(f0, (), rng, chunk_size=[4096, 128][i % 2], density=2, with_index=True, version=3)
+        sc = scenario.Scn().file("in0.chm", chm).op("chm_new").op("chm_open", "h0", "in0.chm").op("chm_find_all", "h0", 40).op("chm_close", "h0")
+        out.append(Case("gen:chm-bytes-names", "chm", sc))
+    # (17) a compressed-section member declared longer than the section holds, by less than the padding to the reset interval
+    for i in range(max(2, n // 3)):
+        f1 = [(b"/c%d.bin" % j, [3000, 1349][j]) for j in range(2)]
+        chm, exp = chmfmt.build([(b"/index.html", b"<html>hi</html>")], f1, rng, chunk_size=4096, wbits=16, reset_frames=2, with_rtable=(i % 2 == 0), version=3,
+                                overlong_last=[100, 2, 1, 60000][i % 4])
+        sc = scenario.Scn().file("in0.chm", chm); fmt_ops("chm", sc, 8); out.append(Case("hostile:chm-overlong-member", "chm", sc))
+    # (18) a compressed section of three reset intervals, the member of the last interval first: every host call fails in turn
+    for i in range(1):
+        f1 = [(b"/c%d.bin" % j, [33000, 33000, 20000][j]) for j in range(3)]
+        chm, exp = chmfmt.build([(b"/index.html", b"<html>hi</html>")], f1, rng, chunk_size=4096, wbits=15, reset_frames=1, version=3)
+        names = sorted(exp.keys(), key=chmfmt.sort_key)
+        sc = scenario.Scn().file("in0.chm", chm).op("chm_new").op("chm_fast_open", "h0", "in0.chm").op("chm_find", "h0", b"/c2.bin".hex(), "out0").op("chm_find", "h0", b"/c1.bin".hex(), "out1").op("chm_close", "h0")
+        sc.op("chm_open", "h1", "in0.chm").op("chm_extract", "h1", names.index(b"/c2.bin"), "out2").op("chm_extract", "h1", names.index(b"/c2.bin"), "out3").op("chm_close", "h1")
+        out.append(Case("gen:chm-reset-faults", "chm", sc, True, exp, all_faults=True))
     return out
